@@ -15,7 +15,9 @@ class Unsupported(Exception):
     pass
 
 
-VARIANT_INDEX = {"None": 0, "Some": 1, "Ok": 0, "Err": 1, "Ready": 0, "Pending": 1}
+VARIANT_INDEX = {"None": 0, "Some": 1, "Ok": 0, "Err": 1, "Ready": 0, "Pending": 1, "SlotPending": 0, "SlotReady": 1}
+# variants of a crate enum whose names clash with a std enum tracked above (future_deque: Slot::{Pending, Ready})
+VARIANT_ALIAS = {"SlotPending": "Pending", "SlotReady": "Ready"}
 ORDERINGS = ("Relaxed", "Release", "Acquire", "AcqRel", "SeqCst")
 STATE_DOMAIN = list(range(8))     # values an atomic byte read may return in the model (asserted < 8)
 
@@ -135,7 +137,8 @@ class Frame:
 class Config:
     """What the interpreter needs to know about one crate's protocol code."""
 
-    def __init__(self, funcs, consts, local_fn_resolver, atomic_loc_of=None, extra_visible=None, extra_pure=(), drop_hook=None, extra_call=None):
+    def __init__(self, funcs, consts, local_fn_resolver, atomic_loc_of=None, extra_visible=None, extra_pure=(), drop_hook=None, extra_call=None,
+                 drop_call=None, extra_rvalue=None):
         self.funcs = funcs
         self.consts = consts
         self.resolve_local = local_fn_resolver      # callee text -> Func or None
@@ -144,6 +147,8 @@ class Config:
         self.extra_pure = tuple(extra_pure)
         self.drop_hook = drop_hook or (lambda v: None)
         self.extra_call = extra_call or (lambda interp, callee, vals, fr, dst: False)   # pure, crate-specific callee semantics
+        self.drop_call = drop_call or (lambda v: None)          # value -> (Func, env) whose body is the value's Drop (interpreted), or None
+        self.extra_rvalue = extra_rvalue or (lambda interp, fr, rv: NotImplemented)   # crate-specific aggregates
 
 
 PURE_PASS_ARG0 = (
@@ -209,7 +214,7 @@ class Interp:
         if m:
             v = self.deref_alias(fr, self.place_read(fr, m.group(1)))
             if isinstance(v, tuple) and v and v[0] == "ENUM":
-                if v[1] != m.group(2):
+                if v[1] != m.group(2) and VARIANT_ALIAS.get(v[1]) != m.group(2):
                     raise Unsupported("variant projection %s on %r" % (p, v))
                 idx = int(m.group(3))
                 return v[2 + idx] if len(v) > 2 + idx else None
@@ -259,6 +264,11 @@ class Interp:
             return fr.env.get(v[1])
         if isinstance(v, tuple) and v and v[0] == "FIELDREF":
             return self.obj_field(fr, v[1], v[2])
+        if isinstance(v, tuple) and v and v[0] == "SLOTREF":
+            key = "@slot%d" % v[1]
+            if key not in fr.env:
+                raise Unsupported("slot %d accessed outside the operation that owns the deque (%s)" % (v[1], fr.func.short()))
+            return fr.env[key]
         return v
 
     def place_move_out(self, fr, p):
@@ -311,6 +321,9 @@ class Interp:
             raise Unsupported("token stored into place %s" % dst)
 
     def rvalue(self, fr, rv):
+        x = self.cfg.extra_rvalue(self, fr, rv)
+        if x is not NotImplemented:
+            return x
         if rv.startswith(("copy ", "move ", "const ")):
             m = re.match(r"^(copy|move) (.+?) as \w+ \(\w+\)$", rv)
             if m:
@@ -448,6 +461,13 @@ class Interp:
                 hk = dict(hk)
                 hk.update(line=line, next_bb=nxt, place=m.group(1))
                 return ("VIS", stack, hk)
+            dc = self.cfg.drop_call(v)
+            if dc is not None:
+                fn, env = dc
+                if re.match(r"^_\d+$", m.group(1)):
+                    fr.env[m.group(1)] = MOVED
+                stack.append(Frame(fn, dict(env), "bb0", None, nxt))
+                return None
             return self.goto(stack, nxt)
         m = re.match(r"^assert\((.+?), .*\) -> \[success: (bb\d+), unwind[^\]]*\];$", term)
         if m:
@@ -516,9 +536,14 @@ class Interp:
                                        line=line, next_bb=ret_bb, dst=dst))
         if re.search(r"<(?:std::task::)?Waker as (?:std::clone::)?Clone>::clone$", callee):
             v = self.deref_alias(fr, vals[0])
-            if not (isinstance(v, tuple) and v[0] == "WAKERREF"):
+            if isinstance(v, tuple) and v and v[0] == "WAKERREF":
+                return ("VIS", stack, dict(kind="CLONE", waker=v[1], line=line, next_bb=ret_bb, dst=dst))
+            ev = self.cfg.extra_visible(callee, args, fr, [self.deref_alias(fr, x) for x in vals])
+            if ev is None:
                 raise Unsupported("clone of untracked waker @%s: %r" % (line, v))
-            return ("VIS", stack, dict(kind="CLONE", waker=v[1], line=line, next_bb=ret_bb, dst=dst))
+            ev = dict(ev)
+            ev.update(line=line, next_bb=ret_bb, dst=dst)
+            return ("VIS", stack, ev)
         if re.search(r"(^|::)Waker::wake$", callee):
             v = vals[0]
             if not is_waker(v):
@@ -548,6 +573,9 @@ class Interp:
         if fn is not None:
             env = {}
             for p, x in zip(fn.params, vals):
+                # a reference to a caller-local task context is passed by value (contexts are immutable tokens)
+                if isinstance(x, tuple) and x and x[0] == "REF" and isinstance(fr.env.get(x[1]), tuple) and fr.env[x[1]] and fr.env[x[1]][0] in ("CONTEXT", "MCONTEXT"):
+                    x = fr.env[x[1]]
                 env[p] = x
             stack.append(Frame(fn, env, "bb0", dst, ret_bb))
             return None
